@@ -20,8 +20,15 @@ FF8 = b"\xff" * 8
 
 class NetSim(simncp.SimNcp):
     def __init__(self, loop, version, *, eui64=bytes.fromhex("0807060504030201"), nv3_eui64=True,
-                 mfg_eui64=FF8, key_table_size=12, child_table_size=32, have_token_cmds=True):
+                 mfg_eui64=FF8, key_table_size=12, child_table_size=32, have_token_cmds=True, fw_sizes=None):
         super().__init__(loop, version)
+        # fw_sizes=(keys, children): table sizes are CONFIGURATION - the firmware boots with these defaults, the host may
+        # raise them while the stack is down, and a reboot forgets what the host configured
+        self.fw_sizes = fw_sizes
+        if fw_sizes:
+            key_table_size, child_table_size = fw_sizes
+        self.child_size = child_table_size
+        self._parked_keys = []
         self.base_eui64 = bytes(eui64)
         self.nv3 = {} if nv3_eui64 else None       # NV3 token store (None: firmware has no NV3 EUI64 token)
         if nv3_eui64:
@@ -56,6 +63,15 @@ class NetSim(simncp.SimNcp):
 
     def on_reset(self):
         self.stack_up = False
+        if self.fw_sizes:
+            self.config["CONFIG_KEY_TABLE_SIZE"], self.config["CONFIG_MAX_END_DEVICE_CHILDREN"] = self.fw_sizes
+            self._resize_keys(self.fw_sizes[0])
+            self.child_size = self.fw_sizes[1]
+
+    def _resize_keys(self, n):
+        cur = list(self.key_table) + list(self._parked_keys)
+        cur += [None] * max(0, n - len(cur))
+        self.key_table, self._parked_keys = cur[:n], cur[n:]
 
     def status_event(self, code):
         self.callback("stackStatusHandler", {"status": code}, 0.002)
@@ -117,6 +133,15 @@ class NetSim(simncp.SimNcp):
         return {"status": "OK", "value": self.config.get(configId.name, 0)}
 
     def cmd_setConfigurationValue(self, configId, value):
+        if self.fw_sizes and configId.name in ("CONFIG_KEY_TABLE_SIZE", "CONFIG_MAX_END_DEVICE_CHILDREN"):
+            if self.stack_up:
+                return {"status": "ERROR_INVALID_CALL"}
+            self.config[configId.name] = int(value)
+            if configId.name == "CONFIG_KEY_TABLE_SIZE":
+                self._resize_keys(int(value))
+            else:
+                self.child_size = int(value)
+            return {"status": "OK"}
         if configId.name in ("CONFIG_KEY_TABLE_SIZE",):
             return {"status": "OK"}  # table sizes are fixed in this simulator
         self.config[configId.name] = int(value)
@@ -270,6 +295,7 @@ class NetSim(simncp.SimNcp):
     # ------------------------------------------------------------------ link keys
     def cmd_clearKeyTable(self):
         self.key_table = [None] * len(self.key_table)
+        self._parked_keys = []
         return {"status": "OK"}
 
     def cmd_tokenFactoryReset(self, **kw):
@@ -330,6 +356,8 @@ class NetSim(simncp.SimNcp):
 
     # ------------------------------------------------------------------ children / address table
     def cmd_setChildData(self, index, child_data):
+        if self.fw_sizes and int(index) >= self.child_size:
+            return {"status": "INDEX_OUT_OF_RANGE"}
         self.children[int(index)] = (bytes(child_data.eui64.serialize()), int(child_data.id), int(child_data.type))
         return {"status": "OK"}
 
@@ -338,6 +366,8 @@ class NetSim(simncp.SimNcp):
 
         rx = self.cls.COMMANDS["getChildData"][2]
         c = self.children.get(int(index))
+        if self.fw_sizes and int(index) >= self.child_size:
+            c = None
         eui = t.EUI64.deserialize(c[0] if c else b"\x00" * 8)[0]
         status = "OK" if c else "NOT_JOINED"
         if "childId" in rx:
